@@ -4902,6 +4902,11 @@ func (t *Terminal) Loop() error {
 							// A clear code has been seen since the last rendering
 							t.previewer.frame = result.frame
 							t.previewed.version = noPreviewedVersion
+							// The new frame is followed from its top, like the output of a new command
+							t.previewer.following.Force(t.activePreviewOpts.follow)
+							if t.previewer.following.Enabled() {
+								t.previewer.offset = 0
+							}
 						}
 						if t.previewer.pending {
 							// The lines of the previous command may have been redrawn under this version
